@@ -6,4 +6,5 @@ CONSTANTS
   LatePool <- mcLatePool
   FirstMatch = TRUE
   RT = FALSE
+  Reduce = TRUE
 CHECK_DEADLOCK FALSE
